@@ -11,7 +11,7 @@ coq_makefile -f _CoqProject -o Makefile
 timeout 3000 make -j16
 cd ../ocaml
 coqc -Q ../coq QCo ../coq/Extract.v > /dev/null
-ocamlfind ocamlopt -O2 -package zarith -linkpkg qco_model.mli qco_model.ml driver.ml -o driver 2>/dev/null
+ocamlfind ocamlopt -O2 -package zarith,unix -linkpkg qco_model.mli qco_model.ml driver.ml -o driver 2>/dev/null
 cd ../harness
 [ -f Cargo.lock ] || cp /repo/Cargo.lock .
 cargo build --offline 2>&1 | tail -2
